@@ -334,6 +334,13 @@ def oracle_case(case):
         if t == 'save':
             xabs = op[1] if op[5] else M.xbase + np.minimum(np.maximum(M.sl, op[1]), M.su)
             v = fobj(op[2], xabs)
+            if saved is not None and not math.isnan(v) and not math.isnan(saved[0]) and close(v, saved[0], 1e-12):
+                # a tie up to rounding (e.g. the same residuals saved at two points clipped onto the same bound): the shadow's
+                # np.sum and the implementation's sumsq may order the two values differently; follow the implementation if it
+                # kept one of the two candidates
+                if (int(M.eval_num_save), int(M.nsamples_save)) in ((saved[1], saved[2]), (op[4], op[3])):
+                    saved = (float(M.objsave), int(M.eval_num_save), int(M.nsamples_save))
+                    continue
             if saved is None or v <= saved[0] or (math.isnan(saved[0]) and not math.isnan(v)):
                 saved = (v, op[4], op[3])
             if M.objsave is None or not close(M.objsave, saved[0], 1e-7):
